@@ -327,6 +327,12 @@ func c03(c *core.Ctx) {
 		c03Reserved(c)
 		c.EndRule()
 	}
+
+	// ---------------------------------------------------------------- R10 (shared)
+	// "a transport never drops the application's [metadata]": the per-RPC credentials step joins the credential's
+	// entries to the caller's, it does not replace them (C13/R2)
+	c.Borrow("C13", map[string]string{"R2": "R10"}, c13)
+
 }
 
 func c03Typestate(c *core.Ctx, nt *types.Named) {
